@@ -34,7 +34,7 @@ func init() {
 		ID:    "C14",
 		Level: "model_checking",
 		Rule: "explicit-state: all 65536 register states (each reached on the implementation through New().Write of its unique 2-byte prefix) x all 256 next bytes, compared with a bitwise CRC-16/ARC; " +
-			"Reset and residue from every state; all byte strings of length<=3 (quick: <=2 plus stride on 3) under every write partition; long strings under every 1- and 2-cut partition; single Write / Checksum calls of sizes 2^k-1, 2^k, 2^k+1 for k=5..20; self-referential inputs: data of 0..72 (and larger) bytes followed by its own checksum in either byte order and 0..10 zero bytes, at 8 start offsets, as one piece and as two writes; alignment: every start offset 0..16 inside a larger buffer x 30 lengths up to 8192 through Checksum, one Write and a two-part Write; first use: Checksum / Write / byte-wise Write / Sum on 10 lengths as the first call a fresh process makes into the package, and ordered pairs of such calls (quick: lengths 255..4096; thorough: all), one process per history; histories that first go through package fit (Header.CheckIntegrity with a wrong / right CRC, CheckIntegrity and Decode of corrupt and valid files, Encode) and then use the checksum package. " +
+			"Reset and residue from every state; Sum / Size / BlockSize leave every state unchanged; all byte strings of length<=3 (quick: <=2 plus stride on 3) under every write partition; long strings under every 1- and 2-cut partition; single Write / Checksum calls of sizes 2^k-1, 2^k, 2^k+1 for k=5..20; self-referential inputs: data of 0..72 (and larger) bytes followed by its own checksum in either byte order and 0..10 zero bytes, at 8 start offsets, as one piece and as two writes; alignment: every start offset 0..16 inside a larger buffer x 30 lengths up to 8192 through Checksum, one Write and a two-part Write; first use: Checksum / Write / byte-wise Write / Sum on 10 lengths as the first call a fresh process makes into the package, and ordered pairs of such calls (quick: lengths 255..4096; thorough: all), one process per history; histories that first go through package fit (Header.CheckIntegrity with a wrong / right CRC, CheckIntegrity and Decode of corrupt and valid files, Encode) and then use the checksum package. " +
 			"distinct = distinct (state,byte)->state' transitions observed on the implementation",
 		Assumptions: []string{"reference is the textbook bitwise reflected CRC-16 (poly 0xA001, init 0, no final xor)"},
 		Run:         runC14,
@@ -127,6 +127,17 @@ func runC14(w *vx.W) {
 			continue
 		}
 		w.State(uint64(s))
+		// Sum, Size and BlockSize are observers: the appended sum is the register (big-endian, as hash.Hash documents)
+		// and the state is the same afterwards, also after calling them twice
+		for rep := 0; rep < 2; rep++ {
+			out := h.Sum([]byte{0xEE})
+			_, _ = h.Size(), h.BlockSize()
+			if len(out) != 3 || out[0] != 0xEE || uint16(out[1])<<8|uint16(out[2]) != uint16(s) || h.Sum16() != uint16(s) {
+				bad("sum-observer", p, nil, uint16(s), h.Sum16())
+				break
+			}
+		}
+		w.Eval(2)
 		for b := 0; b < 256; b++ {
 			h.Reset()
 			if h.Sum16() != 0 {
